@@ -65,6 +65,56 @@ Section Poly.
     assert (0 <= (p' - p) * ((p*p + u*u) * (p'*p' + u*u) - u*u*(p*p' - u*u))) by (apply Qmult_le_0_compat; lra).
     lra.
   Qed.
+(* N' B - N B' = u (p'-p)(pp' - u^2) *)
+Lemma F_diff (u p p' : Q) :
+  (p'*p' - p'*u + u*u) * (p*p + u*u) - (p*p - p*u + u*u) * (p'*p' + u*u) == u * (p' - p) * (p*p' - u*u).
+Proof. ring. Qed.
+(* decreasing below the use *)
+Lemma F_decr (u p p' : Q) : 0 < p -> p <= p' -> p' <= u ->
+  (p'*p' - p'*u + u*u) * (p*p + u*u) <= (p*p - p*u + u*u) * (p'*p' + u*u).
+Proof.
+  intros. pose proof (F_diff u p p') as E.
+  assert (PP : p*p' <= u*u).
+  { assert (p*p' <= p*u) by (rewrite !(Qmult_comm p); apply Qmult_le_compat_r; lra). assert (p*u <= u*u) by (apply Qmult_le_compat_r; lra). lra. }
+  assert (0 <= u * (p' - p) * (u*u - p*p')) by (apply Qmult_le_0_compat; [apply Qmult_le_0_compat; lra|lra]).
+  assert (u * (p' - p) * (p*p' - u*u) == - (u * (p' - p) * (u*u - p*p'))) by ring. lra.
+Qed.
+(* Lipschitz with constant 1/(8u) above the use *)
+Lemma F_lip8 (u p p' : Q) : 0 < u -> u <= p -> p <= p' ->
+  8 * (u*u) * (p*p' - u*u) <= (p*p + u*u) * (p'*p' + u*u).
+Proof.
+  intros.
+  assert (E : (p*p + u*u) * (p'*p' + u*u) - 8 * (u*u) * (p*p' - u*u)
+              == (p*p' - 3*(u*u)) * (p*p' - 3*(u*u)) + (u*(p'-p))*(u*(p'-p))) by ring.
+  pose proof (sq_nn (p*p' - 3*(u*u))). pose proof (sq_nn (u*(p'-p))).
+  set (A := (p*p' - 3*(u*u)) * (p*p' - 3*(u*u))) in *. set (B := (u*(p'-p))*(u*(p'-p))) in *. lra.
+Qed.
+
+Lemma r3a (u a a' f f' : Q) : 0 < u -> 0 <= a' -> a' <= a -> a <= u -> 1 <= 2 * f -> 8 * u * (f' - f) <= a - a' -> f' * a' <= f * a.
+Proof.
+  intros Hu Ha' Haa Hau Hf HL.
+  (* 8u f' a' <= (8u f + (a-a')) a' ;  (a-a') a' <= 8 u f (a-a') *)
+  assert (E0 : 8 * u * (f' - f) == 8 * u * f' - 8 * u * f) by ring.
+  assert (S1 : 0 <= (8 * u * f + (a - a') - 8 * u * f') * a').
+  { assert (T1 : 0 <= 8 * u * f + (a - a') - 8 * u * f').
+    { set (X1 := 8 * u * f') in *. set (X2 := 8 * u * f) in *. set (Y := 8 * u * (f' - f)) in *. lra. }
+    apply Qmult_le_0_compat; assumption. }
+  assert (S2 : 0 <= (8 * u * f - a') * (a - a')).
+  { apply Qmult_le_0_compat; [|lra]. assert (H0 : 0 <= u * (2 * f - 1)) by (apply Qmult_le_0_compat; lra).
+    assert (E : u * (2 * f - 1) == 2 * (u * f) - u) by ring. assert (E2 : 8 * u * f == 8 * (u * f)) by ring.
+    set (X := u * f) in *. lra. }
+  assert (S3 : 0 <= 8 * u * (f * a - f' * a')).
+  { assert (E : 8 * u * (f * a - f' * a') == (8 * u * f + (a - a') - 8 * u * f') * a' + (8 * u * f - a') * (a - a')) by ring.
+    set (A := (8 * u * f + (a - a') - 8 * u * f') * a') in *. set (B := (8 * u * f - a') * (a - a')) in *. lra. }
+  assert (P : 0 <= f * a - f' * a').
+  { destruct (Qlt_le_dec (f * a - f' * a') 0) as [N|N]; [|exact N]. exfalso.
+    assert (8 * u * (f * a - f' * a') < 0).
+    { assert (P8 : 0 < 8 * u) by lra. set (Y := f * a - f' * a') in *. 
+      assert (0 < (8 * u) * (- Y)) by (apply Qmult_lt_0_compat; lra). assert (E : 8 * u * Y == - ((8 * u) * (- Y))) by ring. lra. }
+    lra. }
+  lra.
+Qed.
+
 End Poly.
 
 Open Scope Qc_scope.
@@ -155,6 +205,19 @@ Qed.
 
 Definition srl (c : Col) : StepR := (c, step_out false true c).
 
+(** used production of the step as a function of (u, p) *)
+Definition usedl (u p : Qc) : Qc := if qltb 0 u then (if qltb 0 p then gl u p else 0) else 0.
+
+Lemma usedl_mono u p p' : 0 <= u -> 0 <= p -> p <= p' -> usedl u p <= usedl u p' /\ usedl u p' - usedl u p <= p' - p /\ 0 <= usedl u p /\ usedl u p <= u.
+Proof.
+  intros Hu Hp Hpp. unfold usedl. destruct (qltb_spec 0 u) as [U|U]; [|repeat split; qlra].
+  destruct (qltb_spec 0 p) as [P|P].
+  - destruct (qltb_spec 0 p') as [P'|P']; [|exfalso; qlra]. destruct (gl_mono u p p' U P Hpp) as [M L].
+    destruct (gl_bounds u p U P) as [B1 B2]. repeat split; try assumption. qlra.
+  - assert (p = 0) by qlra. subst p. destruct (qltb_spec 0 p') as [P'|P']; [|repeat split; qlra].
+    destruct (gl_bounds u p' U P') as [B1 B2]. repeat split; qlra.
+Qed.
+
 Section StepLm.
   Variables (c : Col) (d : Qc).
   Hypothesis Hok : col_ok c.
@@ -163,9 +226,6 @@ Section StepLm.
   Hypothesis Zpv : zg (c_pv c).
   Hypothesis Zd : zg d.
   Hypothesis C0 : c_chp c = 0.
-
-  (** used production of the step as a function of (u, p) *)
-  Definition usedl (u p : Qc) : Qc := if qltb 0 u then (if qltb 0 p then gl u p else 0) else 0.
 
   Lemma used_tot_lm : s_used (srl c) = usedl (c_u c) (c_pv c) /\ s_used (srl (bump d c)) = usedl (c_u c) (c_pv c + d).
   Proof.
@@ -183,16 +243,6 @@ Section StepLm.
         + assert (p = 0) by qlra. subst p. unfold Qcdiv. rewrite Qcmult_0_l. destruct (qleb_spec 0 0); [|exfalso; qlra]. qlra.
       - destruct (qleb_spec 0 0); [|exfalso; qlra]. assert (u = 0) by qlra. subst u. qlra. }
     split; apply Gen; qlra.
-  Qed.
-
-  Lemma usedl_mono u p p' : 0 <= u -> 0 <= p -> p <= p' -> usedl u p <= usedl u p' /\ usedl u p' - usedl u p <= p' - p /\ 0 <= usedl u p /\ usedl u p <= u.
-  Proof.
-    intros Hu Hp Hpp. unfold usedl. destruct (qltb_spec 0 u) as [U|U]; [|repeat split; qlra].
-    destruct (qltb_spec 0 p) as [P|P].
-    - destruct (qltb_spec 0 p') as [P'|P']; [|exfalso; qlra]. destruct (gl_mono u p p' U P Hpp) as [M L].
-      destruct (gl_bounds u p U P) as [B1 B2]. repeat split; try assumption. qlra.
-    - assert (p = 0) by qlra. subst p. destruct (qltb_spec 0 p') as [P'|P']; [|repeat split; qlra].
-      destruct (gl_bounds u p' U P') as [B1 B2]. repeat split; qlra.
   Qed.
 
   (** per source: the share of the only source is 1 when there is production, and nothing is used when there is none *)
@@ -369,3 +419,89 @@ Section AnnualLm.
     - exact M1.
   Qed.
 End AnnualLm.
+
+
+(** ** Load matching with two electricity sources: the cogenerated electricity used on site does not grow *)
+Notation q2 := (1 + 1) (only parsing).
+Notation q8 := ((1 + 1) * (1 + 1) * (1 + 1)) (only parsing).
+Lemma div_le_same (a c b : Qc) : 0 < b -> a <= c -> a / b <= c / b.
+Proof. intros Hb H. apply div_le_cross; [exact Hb|exact Hb|]. toQ. absQ. cbn in *. nra. Qed.
+
+Lemma r3a_c (u a a' f f' : Qc) : 0 < u -> 0 <= a' -> a' <= a -> a <= u -> 1 <= q2 * f -> q8 * u * (f' - f) <= a - a' -> f' * a' <= f * a.
+Proof. intros H1 H2 H3 H4 H5 H6. pose proof (r3a (this u) (this a) (this a') (this f) (this f')) as R. toQ. absQ. cbn in *. apply R; lra. Qed.
+
+Definition Fq (u p : Qc) : Qc := gnum u p / gden u p.
+
+Lemma Fq_range u p : 0 < u -> 0 < p -> 1 <= q2 * Fq u p /\ Fq u p <= 1.
+Proof.
+  intros Hu Hp. pose proof (gden_pos u p Hu) as B. unfold Fq. split.
+  - assert (E : q2 * (gnum u p / gden u p) = (q2 * gnum u p) / gden u p) by (unfold Qcdiv; ring). rewrite E.
+    replace 1 with (gden u p / gden u p) at 1 by (field; intro K; rewrite K in B; qlra).
+    apply div_le_same; [exact B|]. unfold gnum, gden in *. pose proof (sq_nn (this p - this u)). toQ. absQ. cbn in *. nra.
+  - replace 1 with (gden u p / gden u p) by (field; intro K; rewrite K in B; qlra).
+    apply div_le_same; [exact B|]. unfold gnum, gden in *. toQ. absQ. cbn in *. nra.
+Qed.
+
+Lemma Fq_decr u p p' : 0 < u -> 0 < p -> p <= p' -> p' <= u -> Fq u p' <= Fq u p.
+Proof.
+  intros Hu Hp H1 H2. unfold Fq. apply div_le_cross; [apply gden_pos, Hu|apply gden_pos, Hu|]. unfold gnum, gden.
+  pose proof (F_decr (this u) (this p) (this p')) as L. toQ. absQ. cbn in *. lra.
+Qed.
+
+Lemma Fq_lip8 u p p' : 0 < u -> u <= p -> p <= p' -> q8 * u * (Fq u p' - Fq u p) <= p' - p.
+Proof.
+  intros Hu H1 H2. pose proof (gden_pos u p Hu) as B. pose proof (gden_pos u p' Hu) as B'. unfold Fq.
+  assert (E : q8 * u * (gnum u p' / gden u p' - gnum u p / gden u p)
+              = (q8 * u * (gnum u p' * gden u p - gnum u p * gden u p')) / (gden u p * gden u p')).
+  { field. split; intro K; rewrite K in *; qlra. }
+  rewrite E. clear E.
+  assert (P : 0 < gden u p * gden u p') by (toQ; absQ; cbn in *; nra).
+  assert (H : q8 * u * (gnum u p' * gden u p - gnum u p * gden u p') <= (p' - p) * (gden u p * gden u p')).
+  { unfold gnum, gden. pose proof (F_diff (this u) (this p) (this p')) as D. pose proof (F_lip8 (this u) (this p) (this p')) as L.
+    toQ. absQ. cbn in *.
+    assert (L' : (8 * (Qu * Qu) * (Qp * Qp' - Qu * Qu) <= (Qp * Qp + Qu * Qu) * (Qp' * Qp' + Qu * Qu))%Q) by (apply L; lra).
+    assert (M : (0 <= (Qp' - Qp) * ((Qp * Qp + Qu * Qu) * (Qp' * Qp' + Qu * Qu) - 8 * (Qu * Qu) * (Qp * Qp' - Qu * Qu)))%Q)
+      by (apply Qmult_le_0_compat; lra).
+    nra. }
+  revert H P. generalize (q8 * u * (gnum u p' * gden u p - gnum u p * gden u p')) (gden u p * gden u p') (p' - p). intros x y z H P.
+  toQ. absQ. cbn in *. apply Qle_shift_div_r; [lra|]. lra.
+Qed.
+
+Lemma Fq_at_use u : 0 < u -> q2 * Fq u u = 1.
+Proof. intros Hu. unfold Fq, gnum, gden. field. intro K. assert (0 < u * u + u * u) by (toQ; absQ; cbn in *; nra). rewrite K in H. qlra. Qed.
+
+(** the cogenerated electricity used in a step, as a function of the on-site production *)
+Definition hc (u pv chp : Qc) : Qc := Fq u (pv + chp) * qmin chp (u - qmin pv u).
+
+Theorem hc_mono u pv pv' chp : 0 < u -> 0 <= pv -> pv <= pv' -> 0 <= chp -> 0 < pv + chp -> hc u pv' chp <= hc u pv chp.
+Proof.
+  intros Hu Hpv Hpp Hc Hp.
+  assert (Hp' : 0 < pv' + chp) by qlra.
+  destruct (Fq_range u (pv + chp) Hu Hp) as [F1 F2]. destruct (Fq_range u (pv' + chp) Hu Hp') as [F1' F2'].
+  (* sub-interval lemma: both end points on the same side of the point where pv + chp = u *)
+  assert (Below : forall a b, 0 <= a -> a <= b -> 0 < a + chp -> b + chp <= u -> hc u b chp <= hc u a chp).
+  { intros a b Ha Hab Hac Hbu. unfold hc.
+    assert (Ma : qmin chp (u - qmin a u) = chp) by qlra. assert (Mb : qmin chp (u - qmin b u) = chp) by qlra. rewrite Ma, Mb.
+    pose proof (Fq_decr u (a + chp) (b + chp) Hu Hac ltac:(qlra) Hbu) as D.
+    revert D. generalize (Fq u (a + chp)) (Fq u (b + chp)). intros fa fb D. toQ. absQ. cbn in *. nra. }
+  assert (Above : forall a b, 0 <= a -> a <= b -> u <= a + chp -> hc u b chp <= hc u a chp).
+  { intros a b Ha Hab Hau. unfold hc.
+    assert (Hac : 0 < a + chp) by qlra. assert (Hbc : 0 < b + chp) by qlra.
+    destruct (Fq_range u (a + chp) Hu Hac) as [A1 A2]. destruct (Fq_range u (b + chp) Hu Hbc) as [B1 B2].
+    pose proof (Fq_lip8 u (a + chp) (b + chp) Hu Hau ltac:(qlra)) as L.
+    revert A1 A2 B1 B2 L. generalize (Fq u (a + chp)) (Fq u (b + chp)). intros fa fb A1 A2 B1 B2 L.
+    destruct (qleb_spec u b) as [Bu|Bu].
+    - (* nothing of the use is left for cogeneration once the on-site production reaches the use *)
+      assert (Mb : qmin chp (u - qmin b u) = 0) by qlra. rewrite Mb.
+      assert (Ma : 0 <= qmin chp (u - qmin a u)) by qlra. revert Ma. generalize (qmin chp (u - qmin a u)). intros m Ma.
+      toQ. absQ. cbn in *. nra.
+    - assert (Ma : qmin chp (u - qmin a u) = u - a) by qlra. assert (Mb : qmin chp (u - qmin b u) = u - b) by qlra. rewrite Ma, Mb.
+      apply (r3a_c u (u - a) (u - b) fa fb); [exact Hu|qlra|qlra|qlra|exact A1|].
+      revert L. generalize (q8 * u * (fb - fa)). intros z L. qlra. }
+  destruct (qleb_spec (pv' + chp) u) as [C1|C1]; [apply Below; assumption|].
+  destruct (qleb_spec u (pv + chp)) as [C2|C2]; [apply Above; assumption|].
+  (* pv + chp < u < pv' + chp: through the production at which pv + chp = u *)
+  assert (M1 : hc u (u - chp) chp <= hc u pv chp) by (apply Below; qlra).
+  assert (M2 : hc u pv' chp <= hc u (u - chp) chp) by (apply Above; qlra).
+  revert M1 M2. generalize (hc u pv chp) (hc u (u - chp) chp) (hc u pv' chp). intros x y z M1 M2. qlra.
+Qed.
